@@ -70,7 +70,8 @@ PruneEnd(S, x) == IF TipH(S) <= 0 THEN 0 ELSE Min(x, Max(0, TipH(S) - KEEP))
 InRange(fi, hi) == ~(fi.size = 0 \/ fi.hl > hi \/ fi.hf < 0)
 PruneOne(S, f) == [S EXCEPT !.files[f + 1] = FileZero, !.gone[f + 1] = TRUE]
 Event(kind, S, req, hi, prunedSet, S2, target, buffer) ==
-  [kind |-> kind, tip |-> TipH(S), locks |-> ActiveLocks(S), req |-> req, hi |-> hi, before |-> S.files, heights |-> [f \in 1..NFiles(S) |-> HeightsIn(S, f - 1)],
+  [kind |-> kind, tip |-> TipH(S), locks |-> ActiveLocks(S), req |-> req, hi |-> hi, before |-> S.files,
+   heights |-> [f \in 1..NFiles(S) |-> IF (f - 1) \in prunedSet THEN HeightsIn(S, f - 1) ELSE {}],        \* (only looked at for pruned files)
    pruned |-> prunedSet, usage0 |-> Usage(S), usage1 |-> Usage(S2), target |-> target, buffer |-> buffer, after |-> S2.files]
 
 \* FindFilesToPruneManual(x)
